@@ -148,6 +148,7 @@ def c19(rep, tier):
     r_partials.run_compile_never_fails(p, rep)
     r_partials.run_pipeline(p, rep)
     r_partials.run_name_keyed(p, rep)
+    r_partials.run_source_keyed(p, rep)
     r_partials.run_loud(p, rep)
     r_lock.run_lock(p, rep)
     rep.analysed["config:all"] = {"bodies": len(p.fns)}
